@@ -125,6 +125,30 @@ def _layout(T):
     }
 
 
+def _twin_defs(defs):
+    """The same definitions with every nested structure that consists of >= 2 plain scalar members declared in reverse
+    order: same names, same member count, (in packed mode) same sizes - other types. -> (defs, number of reversals)."""
+    import copy
+
+    out = copy.deepcopy(defs)
+    changed = [0]
+
+    def visit(t, is_root):
+        if t["k"] in ("a", "p"):
+            visit(t["t"], False)
+        elif t["k"] == "st":
+            for f_ in t["fields"]:
+                visit(f_["t"], False)
+            if not is_root and t["kind"] == "struct" and len(t["fields"]) >= 2 and all(f_["t"]["k"] == "s" and not f_.get("bits") and f_.get("name") for f_ in t["fields"]) and len({f_["t"]["n"] for f_ in t["fields"]}) > 1:
+                t["fields"].reverse()
+                changed[0] += 1
+
+    for d in out:
+        if d["k"] == "structdef":
+            visit(d["t"], d["n"] == "Root")
+    return out, changed[0]
+
+
 def run_case(case, ctx):
     m = import_repo()
     # half of the cases load the definitions under the OTHER byte order and switch afterwards: nothing a generated
@@ -139,6 +163,14 @@ def run_case(case, ctx):
         cs_i.endian = case["cfg"]["endian"]
         cs_c.endian = case["cfg"]["endian"]
         ctx.count("endian-switched-after-load")
+    if not case.get("custom") and "defs" in case:
+        # ANOTHER cstruct object compiles same-named, same-shaped definitions whose nested structures are other types: the
+        # readers generated for cs_c are its own (nothing generated is shared between objects by name or by source text)
+        tw, nrev = _twin_defs(case["defs"])
+        if nrev:
+            twin = lib(libside.load, tw, load_cfg, True)
+            if not isinstance(twin, Err):
+                ctx.count("twin-cstruct-with-other-nested-types")
     Ti, Tc = cs_i.Root, cs_c.Root
     li, lc = _layout(Ti), _layout(Tc)
     if li != lc:
